@@ -16,14 +16,16 @@ def norm_compose(c):
     return c
 
 
-def unbool(x):
-    if isinstance(x, bool):
-        return int(x)
-    if isinstance(x, dict):
-        return dict((k, unbool(v)) for k, v in x.items())
-    if isinstance(x, list):
-        return [unbool(v) for v in x]
-    return x
+def unbool_doc(doc):
+    """the document with every bool in an integer attribute of an image replaced by the int it equals"""
+    doc = copy.deepcopy(doc)
+    for d in doc["payload"]["images"].values():
+        for cell in d.values():
+            for r in cell:
+                for f in F.INT_FIELDS:
+                    if isinstance(r.get(f), bool):
+                        r[f] = int(r[f])
+    return doc
 
 
 class C02(Prop):
@@ -154,7 +156,7 @@ class C02(Prop):
                     g, w = got.get(v, {}).get(a), want.get(v, {}).get(a)
                     if checklib.canon(g) != checklib.canon(w):
                         diff.append({"variant": v, "arch": a, "read_back": g, "written": w})
-            only_bool = checklib.canon(got) == checklib.canon(dict((v, dict((a, sorted(unbool(c), key=F.rec_key)) for a, c in d.items())) for v, d in want.items()))
+            only_bool = False
             return {"kind": "attributes-changed", "observed": dict(facts, cells=diff[:3], only_bool_to_int=only_bool),
                     "required": "every image read back under the same variant and arch with all fifteen attributes unchanged"}
         if checklib.canon(lo["ok"]["compose"]) != checklib.canon(norm_compose(spec["compose"])):
@@ -162,7 +164,9 @@ class C02(Prop):
                     "required": "compose section intact"}
         d2 = real_out.get("dumps2", {})
         if d2.get("ok") != real_out["dumps"]["ok"]:
-            return {"kind": "bytes-differ", "observed": dict(facts, second_dump=(d2 if "err" in d2 else "text differs from the first dump")),
+            only_bool = "ok" in d2 and bool(facts["bool_in_int_fields"]) and \
+                json.dumps(unbool_doc(json.loads(real_out["dumps"]["ok"])), indent=4, sort_keys=True, separators=(",", ": ")) == d2["ok"]
+            return {"kind": "bytes-differ", "observed": dict(facts, only_bool_to_int=only_bool, second_dump=(d2 if "err" in d2 else "text differs from the first dump")),
                     "required": "writing the re-read manifest reproduces the file byte for byte"}
         return None
 
